@@ -156,7 +156,7 @@ pub fn run(ctx: &mut Ctx) {
     crate::spec::assert_spec_matches::<V>(&rs);
     let n = ctx.tier.pick(5, 6);
     let doc_nodes = ctx.tier.pick(4, 5);
-    ctx.meta("rule", "cases: (input, configuration) pairs; inputs = every string over the 18-byte alphabet Σ up to length n, every document of T∘E (all known/unknown-size choices, non-canonical payloads, width deviations) and every single mutation of it (each byte replaced by each Σ byte, each byte deleted, each truncation, each mid-document suffix); configurations = 8 tolerance subsets x buffered sets x capacity {default,16}. Oracle: for each Ok item, RefCodec decodes the header at the reported offset of the *input*; id, decoded value, End/Full offsets and contiguity of non-End items are compared, up to the first error. Non-trivial: parses that emit >= 2 non-End items.");
+    ctx.meta("rule", "cases: (input, configuration) pairs; inputs = every string over the 18-byte alphabet Σ up to length n, every document of T∘E (all known/unknown-size choices, non-canonical payloads, width deviations) and every single mutation of it (each byte replaced by each Σ byte, each byte deleted, each truncation, each mid-document suffix), documents longer than the 64 KiB buffer with 9..16-byte headers at every alignment around the buffer boundary, and size-boundary documents (payload / content 123..128, 16379..16384 bytes in minimal and wider size fields); configurations = 8 tolerance subsets x buffered sets x capacity {default,16}. Oracle: for each Ok item, RefCodec decodes the header at the reported offset of the *input*; id, decoded value, End/Full offsets and contiguity of non-End items are compared, up to the first error. Non-trivial: parses that emit >= 2 non-End items.");
     ctx.meta("bounds", &format!("Σ* length <= {}; documents <= {} elements over V with 1 encoding deviation; all single mutations", n, doc_nodes));
     ctx.meta("assumptions", "payload bytes outside the representative classes are only copied (data independence) || tiling after a Full item is only checked when its size is known and oversized children are not tolerated");
     ctx.expect_nonzero("full_items_seen");
